@@ -14,7 +14,14 @@ pub mod datalog2 {
     // ORACLES: what the engine answers for a query evaluated from `origin` under the trusted set `scope`
     pub uninterp spec fn m_one(w: World, q: Rule, origin: usize, scope: Set<usize>) -> Result<bool, Execution>;
     pub uninterp spec fn m_all(w: World, q: Rule, scope: Set<usize>) -> Result<bool, Execution>;
+    #[verifier::external_body] pub struct FactSet { _p: u8 }
+    // ORACLE: the facts a query rule derives from `origin` under the trusted set `scope`
+    pub uninterp spec fn q_rule(w: World, q: Rule, origin: usize, scope: Set<usize>) -> Result<FactSet, Execution>;
     impl World {
+        #[verifier::external_body]
+        pub fn query_rule(&self, rule: Rule, origin: usize, scope: &TrustedOrigins, symbols: &SymbolTable) -> (r: Result<FactSet, Execution>)
+            ensures r == q_rule(*self, rule, origin, scope.0.inner@)
+        { unimplemented!() }
         #[verifier::external_body]
         pub fn query_match(&self, rule: Rule, origin: usize, scope: &TrustedOrigins, symbols: &SymbolTable) -> (r: Result<bool, Execution>)
             ensures r == m_one(*self, rule, origin, scope.0.inner@)
@@ -54,6 +61,15 @@ pub mod builder {
     pub broadcast axiom fn ax_conv_check(c: Check)
         ensures (#[trigger] conv_check(c)).kind == c.kind, conv_check(c).queries@.len() == c.queries@.len(),
                 forall|i: int| #![trigger c.queries@[i]] #![trigger conv_check(c).queries@[i]] 0 <= i < c.queries@.len() ==> conv_check(c).queries@[i] == conv_rule(c.queries@[i]);
+    // rule A5 (statement as oracle): the iterator chains that turn the derived facts into the caller's type
+    pub uninterp spec fn collect_spec<T>(f: datalog2::FactSet, s: datalog2::SymbolTable) -> Result<Vec<T>, crate::error::Token>;
+    pub uninterp spec fn collect_all_spec<T>(f: datalog2::FactSet, s: datalog2::SymbolTable) -> Result<Vec<T>, crate::error::Token>;
+    #[verifier::external_body]
+    pub fn verif_collect_facts<T>(res: datalog2::FactSet, symbols: &datalog2::SymbolTable) -> (r: Result<Vec<T>, crate::error::Token>)
+        ensures r == collect_spec::<T>(res, *symbols) { unimplemented!() }
+    #[verifier::external_body]
+    pub fn verif_collect_all<T>(res: datalog2::FactSet, symbols: &datalog2::SymbolTable) -> (r: Result<Vec<T>, crate::error::Token>)
+        ensures r == collect_all_spec::<T>(res, *symbols) { unimplemented!() }
     impl Rule {
         #[verifier::external_body]
         pub fn convert(&self, symbols: &mut datalog2::SymbolTable) -> (r: datalog2::Rule) ensures r == conv_rule(*self) { unimplemented!() }
@@ -102,6 +118,18 @@ pub mod authorizer {
     //@extract biscuit-auth/src/token/authorizer.rs :: struct Authorizer
     //@end
     impl Authorizer {
+        //@extract biscuit-auth/src/token/authorizer.rs :: impl Authorizer :: fn query_inner
+        //@ sub res\s*\.inner\s*\.into_iter\(\)[\s\S]*?\.collect\(\) => crate::builder::verif_collect_facts::<T>(res, &self.symbols)
+        //@ ensures frame: frame_eq(*final(self), *old(self))
+        //@ ensures scope: r == (match crate::datalog2::q_rule(old(self).world, rule, usize::MAX, tset(rule.scopes@, default_trust(), usize::MAX, old(self).public_key_to_block_id@)) { Ok(fs) => crate::builder::collect_spec::<T>(fs, old(self).symbols), Err(e) => Err(exec_err(e)) })
+        //@ ghost before "let res = self" :: proof { lemma_tset(rule_trusted_origins.0.inner@, rule.scopes@, default_trust(), usize::MAX, self.public_key_to_block_id@); }
+        //@end
+        //@extract biscuit-auth/src/token/authorizer.rs :: impl Authorizer :: fn query_all_inner
+        //@ sub let r: HashSet<_> = res\.into_iter\(\)\.map\(\|\(_, fact\)\| fact\)\.collect\(\);\s*r\.into_iter\(\)[\s\S]*?\.collect::<Result<Vec<T>, _>>\(\) => crate::builder::verif_collect_all::<T>(res, &self.symbols)
+        //@ ensures frame: frame_eq(*final(self), *old(self))
+        //@ ensures scope: r == (match crate::datalog2::q_rule(old(self).world, rule, 0usize, (if rule.scopes@.len() == 0 { old(self).token_origins.0.inner@ } else { tset(rule.scopes@, default_trust(), usize::MAX, old(self).public_key_to_block_id@) })) { Ok(fs) => crate::builder::collect_all_spec::<T>(fs, old(self).symbols), Err(e) => Err(exec_err(e)) })
+        //@ ghost before "let res = self" :: proof { if rule.scopes@.len() != 0 { lemma_tset(rule_trusted_origins.0.inner@, rule.scopes@, default_trust(), usize::MAX, self.public_key_to_block_id@); } }
+        //@end
         //@extract biscuit-auth/src/token/authorizer.rs :: impl Authorizer :: fn authorize_inner
         //@ rewrites R19 R20
         //@ sub self\s*\.authorizer_block_builder\s*\.scopes\s*\.clone\(\)\s*\.iter\(\)\s*\.map\(\|s\| s\.convert\(&mut self\.symbols\)\)\s*\.collect\(\) => crate::builder::verif_convert_scopes(&self.authorizer_block_builder.scopes, &mut self.symbols)
@@ -216,6 +244,7 @@ pub mod aspec {
     pub open spec fn check_q(w: World, kind: CheckKind, q: Rule, origin: usize, dflt: Set<usize>, m: Map<usize, Vec<usize>>) -> bool {
         match kind { CheckKind::One => q_one(w, q, origin, dflt, m), CheckKind::All => q_all(w, q, origin, dflt, m), CheckKind::Reject => !q_one(w, q, origin, dflt, m) }
     }
+    pub open spec fn exec_err(e: Execution) -> crate::error::Token { match e { Execution::RunLimit(l) => crate::error::Token::RunLimit(l), Execution::Expression(x) => crate::error::Token::Execution(x) } }
     pub open spec fn conv_scopes(s: Seq<crate::builder::Scope>) -> Seq<Scope> { s.map_values(|x: crate::builder::Scope| conv_scope(x)) }
     pub open spec fn authz_dflt(a: Authorizer) -> Set<usize> {
         tset(conv_scopes(a.authorizer_block_builder.scopes@), default_trust(), usize::MAX, a.public_key_to_block_id@)
@@ -262,4 +291,9 @@ pub mod aspec {
 //@canary failed-check-ignored :: token::authorizer::Authorizer::authorize_inner :: (Some(Ok(i)), true) => Ok(i), ==>> (Some(Ok(i)), _) => Ok(i),
 //@canary block-check-origin :: token::authorizer::Authorizer::authorize_inner :: query.clone(),\n                                i + 1,\n                                &rule_trusted_origins, ==>> query.clone(),\n                                i,\n                                &rule_trusted_origins,
 //@canary authority-scope-block :: token::authorizer::Authorizer::authorize_inner :: &blocks[0].scopes,\n                    &TrustedOrigins::default(),\n                    0, ==>> &blocks[0].scopes,\n                    &TrustedOrigins::default(),\n                    1,
+//@canary query-default-widened :: token::authorizer::Authorizer::query_inner :: &TrustedOrigins::default(), ==>> &self.token_origins,
+//@canary query-all-branch-flipped :: token::authorizer::Authorizer::query_all_inner :: if rule.scopes.is_empty() { ==>> if !rule.scopes.is_empty() {
+//@canary query-all-origin :: token::authorizer::Authorizer::query_all_inner :: .query_rule(rule, 0, &rule_trusted_origins, &self.symbols)?; ==>> .query_rule(rule, usize::MAX, &rule_trusted_origins, &self.symbols)?;
+//@canary-requires token::authorizer::Authorizer::query_inner
+//@canary-requires token::authorizer::Authorizer::query_all_inner
 //@canary-requires token::authorizer::Authorizer::authorize_inner
